@@ -87,7 +87,33 @@ func New(prop, level string) *Run {
 		}
 	}
 	r.Replay = os.Getenv("VERIF_REPLAY")
+	// A check made of several programs: every part but the last writes its results to a part
+	// file (same format as a shard) which the last part merges with MergeParts.
+	if p := os.Getenv("VERIF_PART_OUT"); p != "" {
+		r.shardOut = p
+	}
 	return r
+}
+
+// MergeParts folds in the result files of earlier parts of the same check (VERIF_PARTS,
+// colon separated). A missing or unreadable part is a harness error.
+func (r *Run) MergeParts() {
+	for _, p := range strings.Split(os.Getenv("VERIF_PARTS"), ":") {
+		if p == "" {
+			continue
+		}
+		b, err := os.ReadFile(p)
+		if err != nil {
+			r.HarnessError("part %s produced no result: %v", p, err)
+			continue
+		}
+		var sf shardFile
+		if err := json.Unmarshal(b, &sf); err != nil {
+			r.HarnessError("part %s: bad result file: %v", p, err)
+			continue
+		}
+		r.mergeShard(&sf)
+	}
 }
 
 // Quick reports whether this is the quick tier.
